@@ -75,6 +75,7 @@ class Node:
         self.neighbors[other] = None
         other.neighbors[self] = None
         self._update()
+        self._relax()
         return other
 
     @property
@@ -117,6 +118,36 @@ class Node:
         for node in self.neighbors:
             if node not in already_updated:
                 node._update(already_updated)
+
+    def _relax(self):
+        """The depth-first refresh done by :py:meth:`_update` may read the routes
+        of a neighbor which is not refreshed yet. When the graph is circular
+        this can leave a route longer than necessary, so the routes of
+        the whole graph are relaxed until each one is a shortest one.
+        Routes that are already optimal are left untouched.
+        """
+
+        # All the nodes reachable from self, in a deterministic order
+        nodes = [self]
+        for node in nodes:
+            for neighbor in node.neighbors:
+                if neighbor not in nodes:
+                    nodes.append(neighbor)
+
+        changed = True
+        while changed:
+            changed = False
+            for node in nodes:
+                for neighbor in node.neighbors:
+                    for name, route in neighbor.routes.items():
+                        if name == node.name:
+                            continue
+                        if (
+                            name not in node.routes
+                            or node.routes[name].steps > route.steps + 1
+                        ):
+                            node.routes[name] = Route(neighbor, route.steps + 1)
+                            changed = True
 
     def path(self, goal):
         """Get the shortest way between two nodes of the graph
